@@ -61,7 +61,7 @@ def bounds(tier):
 
 
 def assumptions():
-    return ["allow_negative_balances=False: histories that overdraw an account are rejected by rp2 and not inspected", "exact rational arithmetic on both sides (the real decimal module's 31-digit rounding only shows in the concrete replay, compared with a 1e-22 relative tolerance)", "sheet names 'Asset', 'Asset - Exchange' (the generator addresses them literally)"]
+    return ["allow_negative_balances=False: histories that overdraw an account are rejected by rp2 and not inspected", "exact rational arithmetic on both sides; on real code (replay) the figures are compared with a tolerance of 1e-22 relative to the total cost the unrealized cost is derived from: rp2 computes cost x (1 - sold fraction), and for an almost completely sold lot the 31-digit rounding of the sold fraction is an absolute error of 1e-31 x cost, not a relative one", "sheet names 'Asset', 'Asset - Exchange' (the generator addresses them literally)"]
 
 
 def _parse(text, asset):
@@ -120,7 +120,7 @@ def run(S, spec):
             tc = tc + w
             u = u + w * (1 - consumed.get(lot.row, 0) / S.ex(lot.crypto_in))
         unreal[asset], total_cost[asset], realized[asset] = u, tc, real
-        S.expect(S.eq(real + u, tc), "C15", "realized-plus-unrealized", "%s: realized cost basis of the detail + unrealized cost != total cost of everything acquired" % asset)
+        S.expect(S.eq(real + u, tc, scale=tc), "C15", "realized-plus-unrealized", "%s: realized cost basis of the detail + unrealized cost != total cost of everything acquired" % asset)
         pos_bal[asset] = [(b.holder, b.exchange, S.ex(b.final_balance)) for b in cd.balance_set if S.ex(b.final_balance) > 0]
     # prices are >= 0.01, so an unconsumed lot part (>= 1e-11) costs >= 1e-13: above the 13 decimals at which rp2 compares
     listed = [a for a in cds if unreal[a] > 0]
@@ -141,17 +141,17 @@ def run(S, spec):
         S.expect(any(hh == holder for hh, _e, _x in pos_bal[asset]), "C15", "holder-without-balance", what)
         total_bal = sum(x for _h, _e, x in pos_bal[asset])
         S.expect(S.eq(S.ex(c.get(2)), bal), "C15", "holder-balance", "%s: crypto balance differs from the computed balance" % what)
-        S.expect(S.eq(S.ex(c.get(3)), unreal[asset] / total_bal), "C15", "per-unit-cost", "%s: per-unit cost is not unrealized cost / total balance" % what)
-        S.expect(S.eq(S.ex(c.get(4)), unreal[asset] * bal / total_bal), "C15", "holder-cost", what)
-        S.expect(S.eq(S.ex(c.get(5)), unreal[asset] * bal / total_bal / grand), "C15", "weight", what)
+        S.expect(S.eq(S.ex(c.get(3)), unreal[asset] / total_bal, scale=total_cost[asset] / total_bal), "C15", "per-unit-cost", "%s: per-unit cost is not unrealized cost / total balance" % what)
+        S.expect(S.eq(S.ex(c.get(4)), unreal[asset] * bal / total_bal, scale=total_cost[asset]), "C15", "holder-cost", what)
+        S.expect(S.eq(S.ex(c.get(5)), unreal[asset] * bal / total_bal / grand, scale=sum(total_cost.values()) / grand), "C15", "weight", what)
         weight_sum = weight_sum + S.ex(c.get(5))
         per_asset_cost[asset] = per_asset_cost.get(asset, 0) + S.ex(c.get(4))
     for asset in listed:
         for holder in sorted({hh for hh, _e, _x in pos_bal[asset]}):
             S.expect((asset, holder) in seen, "C15", "holder-missing", "holder %s with a positive %s balance is not listed on the Asset sheet" % (holder, asset))
-        S.expect(S.eq(per_asset_cost.get(asset, 0), unreal[asset]), "C15", "unrealized-cost", "%s: the holders' cost bases do not add up to the cost of the unconsumed lot parts" % asset)
+        S.expect(S.eq(per_asset_cost.get(asset, 0), unreal[asset], scale=total_cost[asset]), "C15", "unrealized-cost", "%s: the holders' cost bases do not add up to the cost of the unconsumed lot parts" % asset)
     if listed:
-        S.expect(S.eq(weight_sum, 1), "C15", "weights", "cost-basis weights of the Asset sheet do not add up to 100%")
+        S.expect(S.eq(weight_sum, 1, scale=sum(total_cost.values()) / grand), "C15", "weights", "cost-basis weights of the Asset sheet do not add up to 100%")
     # ---- Asset - Exchange sheet
     rows = rec.rows("Asset - Exchange")
     data = [r for r in sorted(rows) if r >= 3 and rows[r].get(0) in cds]
@@ -168,14 +168,14 @@ def run(S, spec):
         S.expect(len(match) == 1, "C15", "account-without-balance", what)
         total_bal = sum(x for _h, _e, x in pos_bal[asset])
         S.expect(S.eq(S.ex(c.get(3)), match[0]), "C15", "account-balance", "%s: crypto balance differs from the computed balance" % what)
-        S.expect(S.eq(S.ex(c.get(4)), unreal[asset] / total_bal), "C15", "per-unit-cost", what)
-        S.expect(S.eq(S.ex(c.get(5)), unreal[asset] * match[0] / total_bal), "C15", "account-cost", what)
+        S.expect(S.eq(S.ex(c.get(4)), unreal[asset] / total_bal, scale=total_cost[asset] / total_bal), "C15", "per-unit-cost", what)
+        S.expect(S.eq(S.ex(c.get(5)), unreal[asset] * match[0] / total_bal, scale=total_cost[asset]), "C15", "account-cost", what)
         weight_sum = weight_sum + S.ex(c.get(6))
     for asset in listed:
         for hh, e, _x in pos_bal[asset]:
             S.expect((asset, hh, e) in seen2, "C15", "account-missing", "account %s/%s with a positive %s balance is not listed on the Asset - Exchange sheet" % (e, hh, asset))
     if listed:
-        S.expect(S.eq(weight_sum, 1), "C15", "weights", "cost-basis weights of the Asset - Exchange sheet do not add up to 100%")
+        S.expect(S.eq(weight_sum, 1, scale=sum(total_cost.values()) / grand), "C15", "weights", "cost-basis weights of the Asset - Exchange sheet do not add up to 100%")
     S.observe("listed", sorted(seen))
     S.observe("accounts", sorted(seen2))
     S.note("rows", len(seen) + len(seen2))
